@@ -20,7 +20,7 @@ RULE = ("call sets whose per-record number of complete samples per population is
         "sufficient), m_j + 2, all, none) x random maps (1-3 populations) x projection targets (for small maps EVERY admissible m in "
         "0..2n_j per axis is visited across the run; otherwise boundary-biased); L1 compares every record's contribution vector cell by "
         "cell (relative 1e-9), C compares printed output with |printed - exact| <= 0.5*10^-p + 1e-9*R for precision p in 0..12 and checks "
-        "the number of decimals; cohorts with 100-600 samples (quick: 100-260) exercise t > 170, and 514-520-sample cohorts projected to about half and 514-1000-sample cohorts with every sample called (rare to intermediate allele frequencies), projected to about half, sit where C(t, m) crosses the f64 range and hypergeometric tails underflow. Non-trivial: >=1 record strictly projected "
+        "the number of decimals; cohorts with 100-600 samples (quick: 100-260) exercise t > 170, and 514-520-sample cohorts projected to about half and 514-1000-sample cohorts with every sample called (rare to intermediate allele frequencies), projected to about half, sit where C(t, m) crosses the f64 range and hypergeometric tails underflow. Columns of samples that are not selected hold anything, other ploidies included. Non-trivial: >=1 record strictly projected "
         "(some t_j > m_j) with non-zero ALT count and >=1 insufficient or exactly-sufficient record; distinct = digest(codes, map, target).")
 ASSUMPTIONS = ["exact reference: Fractions / math.comb", "floating-point allowance 1e-9 relative (measured error of the real pmf ~3e-12)"]
 FLOORS = {"quick": {"evaluations": 3000, "distinct_nontrivial": 800, "counts": {"L1_records": 20000, "C_runs": 250, "exactly_sufficient_records": 500, "insufficient_records": 500}},
